@@ -334,6 +334,34 @@ def run(res, tier):
     real_grid_corners(res, tier)
 
 
+def y_adjacent_corner_mismatch(v):
+    """largest distance between the upper corners of a cell and the lower corners of the cell that the topology integers name as its poloidal
+    successor: (left corners, right corners, where)"""
+    t = {k: int(v[k]) for k in ["nx", "ny", "ixseps1", "ixseps2", "jyseps1_1", "jyseps2_1", "ny_inner", "jyseps1_2", "jyseps2_2"]}
+    myg = int(v["y_boundary_guards"])
+    dn = t["jyseps2_1"] != t["jyseps1_2"]
+
+    def arr(j):
+        if t["jyseps1_1"] < 0 and not dn and t["ny"] == v["Rxy"].shape[1]:
+            return j
+        return j + myg + (2 * myg if dn and j >= t["ny_inner"] else 0)
+
+    wl, wr, where = 0.0, 0.0, None
+    for x in range(t["nx"]):
+        for j in range(t["ny"]):
+            nj = decode_next(t, x, j)
+            if nj is None:
+                continue
+            a, b = arr(j), arr(nj)
+            dl = float(np.hypot(v["Rxy_upper_left_corners"][x, a] - v["Rxy_corners"][x, b], v["Zxy_upper_left_corners"][x, a] - v["Zxy_corners"][x, b]))
+            dr = float(np.hypot(v["Rxy_upper_right_corners"][x, a] - v["Rxy_lower_right_corners"][x, b],
+                                v["Zxy_upper_right_corners"][x, a] - v["Zxy_lower_right_corners"][x, b]))
+            if max(dl, dr) > max(wl, wr):
+                where = (x, a, b, "left" if dl >= dr else "right")
+            wl, wr = max(wl, dl), max(wr, dr)
+    return wl, wr, where
+
+
 def real_grid_corners(res, tier):
     """on real grids the corner coordinates exhibit the decoded adjacency, and shared-edge points coincide"""
     import gridlab
@@ -377,6 +405,9 @@ def real_grid_corners(res, tier):
                 d = max(abs(v["Rxy_upper_left_corners"][x, a] - v["Rxy_corners"][x, b]) if "Rxy_upper_left_corners" in v else 0.0,
                         abs(v["Zxy_upper_left_corners"][x, a] - v["Zxy_corners"][x, b]) if "Zxy_upper_left_corners" in v else 0.0)
                 worst = max(worst, d)
+        if "Rxy_upper_right_corners" in v:
+            wl_, wr_, where_y = y_adjacent_corner_mismatch(v)
+            worst = max(worst, wl_, wr_)
         # x-neighbours (contiguous in x in every topology) share the corners of their common edge
         worst_x, where_x = 0.0, None
         if all(("Rxy" + c) in v for c in ("_lower_right_corners", "_upper_right_corners", "_upper_left_corners", "_corners")):
